@@ -245,6 +245,13 @@ class Value:
 
     # -- reading ----------------------------------------------------------------------------------------
     def _scalar(self):
+        # as in gdb: an lvalue is fetched lazily, at its first use, and keeps those contents from then on - a Value kept
+        # across stops does not follow the inferior's memory
+        if getattr(self, '_fetched', None) is None:
+            self._fetched = (self._scalar_now(),)
+        return self._fetched[0]
+
+    def _scalar_now(self):
         t = self.type
         if self._imm is not None:
             return self._imm
